@@ -253,6 +253,23 @@ class Run:
         for m in s.get("mismatches", []):
             self.violations.append({"job": name, "case": m})
 
+    def add_informational(self, name, res, what):
+        """a conformance job on behaviour no listed property speaks about: counted and shown, never a verdict"""
+        self.cov["states"] += res.distinct
+        self.cov["transitions"] += res.generated
+        job = {"kind": what, "distinct_states": res.distinct, "states_generated": res.generated, "wall_s": round(res.wall, 1), "verdict": "informational (outside the listed property)"}
+        s = res.summary or {}
+        if s:
+            job.update({"vectors": s["vectors"], "nontrivial": s["nontrivial"], "agree": s["agree"], "divergences": s["n_mismatches"]})
+            if s.get("extra"):
+                job["extra"] = s["extra"]
+            job["divergence_examples"] = [{k: m.get(k) for k in ("rule", "word", "expected", "observed")} for m in s.get("mismatches", [])[:8]]
+            self.cov["traces_validated_against_impl"] += s["agree"]
+            if s["n_mismatches"]:
+                print("NOTE: %s: %d of %d vectors diverge from the specification outside the listed property (not a verdict), e.g. %s"
+                      % (name, s["n_mismatches"], s["vectors"], json.dumps(job["divergence_examples"][0], ensure_ascii=False)[:300]))
+        self.cov["jobs"][name] = job
+
     def violation(self, job, case):
         self.violations.append({"job": job, "case": case})
 
